@@ -32,6 +32,9 @@ CASES = [
     ('m-m2', [('metre', None, 1), ('metre', None, 2)], [('litre', None, 1)]),
     ('V-A', [('volt', None, 1), ('ampere', None, 1)], None),
     ('mm-km', [('metre', ('M', -3), 1), ('metre', ('M', 3), 1)], [('hectare', None, 1)]),
+    # one base unit with three different prefixes (partially cancelling), next to another unit
+    ('cm-per-m-km-N', [('metre', ('M', -2), 1), ('metre', None, -1), ('metre', ('M', 3), 1), ('newton', None, 1)], None),
+    ('ms-per-s-us', [('second', ('M', -3), 1), ('second', None, -1), ('second', ('M', -6), 1)], None),
 ]
 
 def factor_spec(u, p, e):
